@@ -332,9 +332,9 @@ fn run(opts: &Opts, acc: &mut Acc) {
     });
     acc.mark_exhaustive("two-operators", "every two-operator tree of || && ?: over the reduced atom set (10 atoms)");
     let n = match (opts.tier, opts.is_dbg()) {
-        (crate::engine::Tier::Quick, _) => 15_000,
-        (_, false) => 600_000,
-        (_, true) => 50_000,
+        (crate::engine::Tier::Quick, _) => 300_000,
+        (_, false) => 3_000_000,
+        (_, true) => 300_000,
     };
     random_genomes(acc, opts, "random", n, 120, |gn, a| {
         let mut g = G::new(gn);
